@@ -108,7 +108,7 @@ static RegisterOp r_e3({"mzd_echelonize", "C02", 0, nullptr, exec_echelon, true}
 static RegisterOp r_e4({"mzd_echelonize_pluq", "C02", 0, nullptr, exec_echelon, true});
 static RegisterOp r_e5({"_mzd_echelonize_m4ri", "C02", 0, nullptr, exec_echelon, true});
 
-static Case gen_C02(const GenCtx &ctx) { return gen_from_ops("C02", ctx, 0); }
+static Case gen_C02(const GenCtx &ctx) { return gen_from_ops("C02", ctx, 15); }
 static RegisterProp p_C02({"C02",
                            "random: entry point (naive, gauss_delayed, M4RI k in 0..10, hybrid default, hybrid with generated "
                            "threshold, PLUQ-based) x full in {0,1} x rank-structured A (generated rank, pivot set with gaps, runs of "
